@@ -152,6 +152,8 @@ class CallMixin:
             if callee.kind == "classattr":
                 con = self.reg.method_contract(callee.cls, callee.name)
                 if con is not None:
+                    if con.params is None and self.frontend.is_classmethod(self.frontend.function_node(con)):
+                        args = [PyVal("class", name=callee.cls)] + list(args)
                     return self.apply_contract(con, args, kwargs, st, "%s.%s" % (callee.cls, callee.name), spec=spec, static=True)
         raise Unsupported("call of %r" % (callee,))
 
@@ -175,6 +177,8 @@ class CallMixin:
         v = args[0]
         if isinstance(v, PyVal):
             raise Unsupported("len of %r" % v)
+        if v.ty.kind == "opt":
+            v = self.unopt(v, st, spec)
         if v.ty.kind == "list":
             return mk_int(self.list_len(v, st, spec))
         if v.ty.kind == "seq":
@@ -266,6 +270,15 @@ class CallMixin:
         if isinstance(v, PyVal) and v.kind == "listof":
             return v.value
         raise Unsupported("list(%r)" % (v,))
+
+    def bi_dict(self, args, kwargs, st, spec):
+        if args or kwargs:
+            raise Unsupported("dict(...) with arguments")
+        return self.new_record(st)
+
+    def bi_np_round(self, args, kwargs, st, spec):
+        d = kwargs.get("decimals", args[1] if len(args) > 1 else mk_int(0))
+        return self.bi_round([args[0], d], {}, st, spec)
 
     def bi_tuple(self, args, kwargs, st, spec):
         v = args[0]
@@ -360,7 +373,7 @@ class CallMixin:
         finally:
             st.bound = saved
             st.qdepth -= 1
-        arr = z3.Lambda([j], r.t)
+        arr = self.defined_array("map", z3.ArraySort(z3.IntSort(), sort_of(r.ty)), lambda t: z3.substitute(r.t, (j, t)), st)
         return self.new_list(r.ty, arr, z3.simplify(ln), st)
 
     def comprehension_list(self, node, st, spec):
@@ -946,6 +959,12 @@ class CallMixin:
         v = self.coerce(self.ev(node.args[0], st, True), EXT, st)
         return SV(REAL, v.t)
 
+    def spec_round_dec(self, node, st):
+        a = self.to_real(self.ev(node.args[0], st, True))
+        n = self.to_int(self.ev(node.args[1], st, True))
+        f = z3.Function("round_dec", z3.RealSort(), z3.IntSort(), z3.RealSort())
+        return SV(REAL, f(a, n))
+
     def spec_real(self, node, st):
         return SV(REAL, self.to_real(self.ev(node.args[0], st, True)))
 
@@ -981,6 +1000,9 @@ class CallMixin:
             return z3.ArraySort(z3.IntSort(), z3.BoolSort())
         if key.endswith("!s"):
             return z3.ArraySort(z3.IntSort(), z3.IntSort())
+        if key.startswith("$cv."):
+            _, c, f = key.split(".")
+            return sort_of(self.reg.class_var(c, f)[1])
         if key.endswith(".$dyn"):
             return z3.ArraySort(z3.IntSort(), z3.ArraySort(z3.IntSort(), z3.RealSort()))
         c, f = key.split(".")
@@ -994,7 +1016,7 @@ class CallMixin:
         return z3.ArraySort(z3.IntSort(), sort_of(ty))
 
     # ------------------------------------------------------------------ contracts at call sites
-    def bind_params(self, con, args, kwargs, static=False):
+    def bind_params(self, con, args, kwargs, static=False, st=None):
         names = self.contract_params(con)
         bound = {}
         args = list(args)
@@ -1015,7 +1037,7 @@ class CallMixin:
                     raise Unsupported("missing argument %s for %s" % (n, con.target))
         for n, v in list(bound.items()):
             if n in con.types and is_sv(v):
-                bound[n] = self.coerce(v, con.types[n])
+                bound[n] = self.coerce(v, con.types[n], st)
         return bound
 
     def contract_params(self, con):
@@ -1038,7 +1060,7 @@ class CallMixin:
 
     def apply_contract(self, con, args, kwargs, st, label, spec=False, static=False):
         ctx = self.ctx
-        bound = self.bind_params(con, args, kwargs, static)
+        bound = self.bind_params(con, args, kwargs, static, None if spec else st)
         ctx.assumed.add(con.target)
         line = ctx.cur_line
         if spec and not con.pure:
